@@ -527,6 +527,9 @@ pub struct Task<W: Write> {
     pub stop_on_io: bool,
     /// stop at the first error of any kind (a caller using `?`)
     pub stop_on_any_err: bool,
+    /// bytes_written() of the builder right after the call that made the
+    /// caller abandon it
+    pub bw_at_abandon: Option<u64>,
 }
 
 impl<W: Write> Task<W> {
@@ -552,11 +555,15 @@ impl<W: Write> Task<W> {
             out: None,
             stop_on_io: true,
             stop_on_any_err: false,
+            bw_at_abandon: None,
         }
     }
 
     pub fn bytes_written(&self) -> Option<u64> {
-        self.b.as_ref().map(|b| b.bytes_written())
+        match &self.b {
+            Some(b) => Some(b.bytes_written()),
+            None => self.bw_at_abandon,
+        }
     }
 
     /// Index of the call the next `step` will make (0 = constructor done).
@@ -594,6 +601,10 @@ impl<W: Write> Task<W> {
             if matches!(res, Res::Panic(_)) || stop {
                 // a poisoned or failed builder is abandoned by the caller
                 self.done = true;
+                if !matches!(res, Res::Panic(_)) {
+                    let bw = catch_unwind(AssertUnwindSafe(|| self.b.as_ref().map(|b| b.bytes_written())));
+                    self.bw_at_abandon = bw.ok().flatten();
+                }
                 let b = self.b.take();
                 let _ = catch_unwind(AssertUnwindSafe(move || drop(b)));
             }
